@@ -31,7 +31,7 @@ MODS = ['dtcwt_fwd', 'dtcwt_inv', 'scat1', 'scat2', 'scat2_bp', 'scat1_bp']
 def plan(tier):
     if tier == 'quick':
         return [{'n': 60} for _ in range(8)]
-    return [{'n': 250} for _ in range(16)]
+    return [{'n': 1500} for _ in range(16)]
 
 
 def corpus():
